@@ -231,8 +231,15 @@ class _MetricCache(defaultdict):
     if not self:
       return (None, [])
     if self.strategy:
+      # Choose and remove under one lock hold: a store() landing between the
+      # two would update strategy state for a metric that is about to vanish.
       with self.lock:
         metric = self.strategy.choose_item()
+        if metric is None:
+          return (None, [])
+        datapoint_index = self._pop(metric)
+      self._check_available_space()
+      return (metric, sorted(datapoint_index.items(), key=by_timestamp))
     else:
       # Avoid .keys() as it dumps the whole list
       metric = next(iter(self))
@@ -244,10 +251,15 @@ class _MetricCache(defaultdict):
     """Return a list of currently cached datapoints sorted by timestamp"""
     return sorted(self.get(metric, {}).items(), key=by_timestamp)
 
+  def _pop(self, metric):
+    # caller holds self.lock
+    datapoint_index = defaultdict.pop(self, metric)
+    self.size -= len(datapoint_index)
+    return datapoint_index
+
   def pop(self, metric):
     with self.lock:
-      datapoint_index = defaultdict.pop(self, metric)
-      self.size -= len(datapoint_index)
+      datapoint_index = self._pop(metric)
     self._check_available_space()
 
     return sorted(datapoint_index.items(), key=by_timestamp)
